@@ -4,6 +4,7 @@ Generated configurations (confgen) are driven through the WSGI application with 
 GetFeatureInfo requests; the upstream is the analytic ground function of ground.py, so the colour every
 output pixel should show follows from the georeference of the response alone.  See DESIGN.md section 2.
 """
+import logging
 import math
 import os
 from fractions import Fraction as Fr
@@ -46,6 +47,7 @@ ASSUMPTIONS = [
 SIG = 'C01/'
 SIG_SQLITE_L0 = 'C01/background-inside-extent/sqlite-level0'
 SIG_SMALL_QUADS = 'C01/misplaced/mesh-quads-under-50px-unchecked'
+SIG_WMTS_FI_ROW = 'C01/featureinfo-misplaced/wmts-row-not-flipped-on-sw-origin-grid'
 MESH_EXPOSURE_LIMIT = 0.5
 QUICK_CONFIGS = 800
 THOROUGH_CONFIGS = 24000
@@ -841,6 +843,79 @@ def check_featureinfo(dep, spec, chain, req, click, gnd, st_):
     return None
 
 
+def check_wmts_featureinfo(dep, spec, chain, req, click_frac, gnd, st_, open_sigs):
+    """WMTS GetFeatureInfo (KVP) on the tile of the top cache that contains the centre of the view: the click must
+    be forwarded for the ground point of pixel (I, J) of the tile that TILEROW (counted from the top, as the
+    standard and MapProxy's own GetTile do) / TILECOL address."""
+    gname = chain['grids'][0]
+    G = spec['grids'][gname]
+    if G['mode'] == 'sqrt2' or (G['mode'] == 'min_res' and G.get('res_factor') == 'sqrt2'):
+        st_.notes['wmts-featureinfo-skipped-sqrt2-grid'] += 1   # tile services publish every second level only
+        return None
+    rg = confgen.ref_grid(G)
+    z = req['level']
+    b = req['bbox']
+    X, Y = ground.transform((b[0] + b[2]) / 2, (b[1] + b[3]) / 2, req['srs'], G['srs'])
+    if not (math.isfinite(float(X)) and math.isfinite(float(Y))):
+        return None
+    tx, ty = rg.tile_of_point(float(X), float(Y), z)
+    if not rg.in_grid(tx, ty, z):
+        st_.notes['wmts-featureinfo-tile-outside-grid'] += 1
+        return None
+    sw_origin = not rg.ul
+    if sw_origin and SIG_WMTS_FI_ROW in open_sigs:
+        st_.excluded['known-finding:wmts-featureinfo-on-sw-origin-grid'] += 1
+        return None
+    row = ty if rg.ul else rg.flip_y(ty, z)
+    tw, th = G['tile_size']
+    pos = (min(int(click_frac[0] * tw), tw - 1), min(int(click_frac[1] * th), th - 1))
+    p = [('SERVICE', 'WMTS'), ('REQUEST', 'GetFeatureInfo'), ('VERSION', '1.0.0'), ('LAYER', req['layer']),
+         ('STYLE', ''), ('TILEMATRIXSET', gname), ('TILEMATRIX', '%02d' % z), ('TILEROW', str(row)),
+         ('TILECOL', str(tx)), ('FORMAT', 'image/png'), ('INFOFORMAT', 'text/plain'), ('I', str(pos[0])),
+         ('J', str(pos[1]))]
+    dep.upstream.clear()
+    resp = dep.app.get('/service?' + urlencode(p), expect_errors=True)
+    if resp.status_int != 200:
+        st_.notes['wmts-featureinfo-status-%d' % resp.status_int] += 1
+        return None
+    calls = dep.upstream.calls('featureinfo')
+    rect = [float(v) for v in rg.tile_rect(tx, ty, z)]
+    pc, cpx = _px_metrics(rect, (tw, th), pos, G['srs'], gnd.srs)
+    src = chain['source']
+    must = True
+    if src.get('coverage'):
+        cov = src['coverage']
+        c = ground.region_class(np.array([pos[0]]), np.array([pos[1]]), rect, (tw, th), G['srs'],
+                                cov['bbox'], cov['srs'], 1.5)
+        must = c[0] == 1
+    st_.classes['wmts-featureinfo:%s' % ('sw-origin' if sw_origin else 'nw-origin')] += 1
+    if not calls:
+        if must:
+            return ('featureinfo-not-forwarded', 'WMTS click %r on tile %r of %s was not forwarded upstream'
+                    % (pos, (tx, ty, z), gname))
+        return None
+    info = calls[0].info
+    pu, upx = _px_metrics(info['bbox'], info['size'], info['pos'], info['srs'], gnd.srs)
+    if not all(math.isfinite(v) for v in pu + pc):
+        return None
+    d = math.hypot(pu[0] - pc[0], pu[1] - pc[1])
+    if d > 1.05 * max(cpx, upx):
+        what = 'featureinfo-misplaced'
+        if sw_origin:
+            # is it the vertically mirrored tile?
+            mrect = [float(v) for v in rg.tile_rect(tx, rg.flip_y(ty, z), z)]
+            pm, _ = _px_metrics(mrect, (tw, th), pos, G['srs'], gnd.srs)
+            if math.hypot(pu[0] - pm[0], pu[1] - pm[1]) <= 1.05 * max(cpx, upx):
+                what = 'wmts-row-not-flipped'
+        return (what, 'WMTS GetFeatureInfo TILEMATRIX=%d TILEROW=%d TILECOL=%d I=%d J=%d on %s/%s (origin %s): tile covers '
+                '%r, click is ground point %r, but upstream was asked for pixel %r of %r / %r %s = ground point %r '
+                '(%.1f px apart)' % (z, row, tx, pos[0], pos[1], req['layer'], gname, G['origin'],
+                                     [round(v, 4) for v in rect], [round(v, 3) for v in pc], info['pos'],
+                                     [round(v, 4) for v in info['bbox']], info['size'], info['srs'],
+                                     [round(v, 3) for v in pu], d / max(cpx, upx)))
+    return None
+
+
 # ------------------------------------------------------------------------------------------------------
 # one case = one deployment with several views
 
@@ -908,13 +983,20 @@ def run_case(case, st_, only=None, exclude_known=True):
     confgen.check_model(spec)
     gnd = make_ground(case)
     open_sigs = core.open_signatures(PROPERTY) if exclude_known else set()
-    with confgen.running(spec, gnd) as dep:
-        for k, rd in enumerate(case['requests']):
-            if only is not None and k != only:
-                continue
-            v = run_view(dep, case, k, rd, gnd, st_, open_sigs)
-            if v is not None:
-                return v, k
+    # MapProxy reports configuration hints ("grid ... is not compatible with WMTS") as log warnings
+    mlog = logging.getLogger('mapproxy')
+    old_level = mlog.level
+    mlog.setLevel(logging.ERROR)
+    try:
+        with confgen.running(spec, gnd) as dep:
+            for k, rd in enumerate(case['requests']):
+                if only is not None and k != only:
+                    continue
+                v = run_view(dep, case, k, rd, gnd, st_, open_sigs)
+                if v is not None:
+                    return v, k
+    finally:
+        mlog.setLevel(old_level)
     return None, None
 
 
@@ -973,6 +1055,8 @@ def run_view(dep, case, k, rd, gnd, st_, open_sigs=frozenset()):
             fi_done += 1
             if problem is not None:
                 break
+        if problem is None and req['clicks'] and chain['grids'] and req['level'] is not None:
+            problem = check_wmts_featureinfo(dep, spec, chain, req, rd['clicks'][0], gnd, st_, open_sigs)
     # evidence
     ntiles = 0
     if chain['grids'] and req['level'] is not None:
@@ -1004,6 +1088,8 @@ def run_view(dep, case, k, rd, gnd, st_, open_sigs=frozenset()):
             signature = SIG_SQLITE_L0
         elif what == 'misplaced' and small_quads:
             signature = SIG_SMALL_QUADS
+        elif what == 'wmts-row-not-flipped':
+            signature = SIG_WMTS_FI_ROW
         one = {'spec': spec, 'ground': case['ground'], 'requests': case['requests'][:k + 1]}
         return core.Violation(signature,
                               '%s [%s %s %s bbox=%r size=%r on %s; levels %r; budget %r]'
